@@ -151,7 +151,7 @@ def run(ctx):
     ctx.level = 'proof'
     ctx.drop('type annotations', 'docstrings')
     ctx.trust('EventEmitter.emit (tools/events.py): calls listeners; listeners do not write Branch\'s private fields (checked by the package-wide frame scan C06.frame)',
-              'qset.append / qset.copy / Branch.Index.add / Index.copy / set.copy: fresh-copy and append contracts (C18 / C16)',
+              'qset.append / qset.copy / set.copy: fresh-copy and append contracts (C18); Branch.Index.add / Index.copy are under contract in C05.struct.* (copy returns the same buckets in sets of its own)',
               'Node.worlds yields the int values of world/world1/world2 (straight-line; interpreted in C04 models)',
               'builtin axioms: max of a finite non-empty set, set.update = union, frozenset(x) = set of x, len(s)==0 iff s empty')
     ctx.assume('Python ints are mathematical; constants are ordered by key 4*subscript+index (obligations C06.next.*, C06.order)',
